@@ -1,3 +1,4 @@
 import ZeepModel.Settings
 import ZeepModel.Lex.Base64
 import ZeepModel.Cache
+import ZeepModel.Url
